@@ -173,8 +173,12 @@ func (c01) Run(ctx *RunCtx) {
 			break
 		}
 		if !doc.Open {
-			// open (or re-open)
+			// open (or re-open); a client is free to number the versions of a
+			// re-opened document from 1 again
 			doc.LSPVer++
+			if doc.LSPVer > 1 && c.Pct("version-restarts", 50) {
+				doc.LSPVer = 1
+			}
 			if doc.Journal || (doc.No != 3 && c.Pct("journal-profile", 70)) {
 				doc.Journal = true
 				doc.Marker++
